@@ -536,8 +536,6 @@ def run_family(pid, tier, seed):
                 os.remove(gp)
         stats = json.load(open(os.path.join(evdir, "stats.json")))
         missing = [c for c in P.get("required", []) if stats["classes"].get(c, 0) == 0]
-        if missing:
-            raise V.Infra("vacuous run: outcome classes never observed: %s" % missing)
         forbidden = [c for c in stats["classes"] if c.startswith("home:") and not c.endswith(":ok")]
         if forbidden and not os.environ.get("VERIF_REPO"):
             # on the repository itself a base payload refused by its own entry point means the corpus is stale
@@ -549,6 +547,10 @@ def run_family(pid, tier, seed):
             raise V.Infra("monitor consumed %d of %d events" % (consumed, stats["events"]))
         st = V.settle(pid, P["family"], tmod, tcfg, scr, drv, evdir, results, drv_env=env)
         rc = V.report(pid, st)
+        if missing and rc != 1:
+            # (a reproduced violation is reported even when the code under test made a class of outcomes
+            # disappear; without one, a run that never saw a required class has shown nothing)
+            raise V.Infra("vacuous run: outcome classes never observed: %s" % missing)
         notes = {}
         for r in results:
             for (_, pr, what) in r["notes"]:
